@@ -19,7 +19,8 @@ Proof.
   assert (Hne : squeezed_or_one shape <> []).
   { unfold squeezed_or_one. destruct (squeeze shape); discriminate. }
   destruct (squeezed_or_one shape) as [|d rest]; [congruence|]. clear Hne.
-  rewrite py_index_0, bind_ret, py_slice_from_1, bind_ret_r. cbn [tl].
+  (* head and tail of the squeezed shape: `x[0]` + `x[1:]` or `first, *rest = x` *)
+  rewrite ?py_index_0, ?py_slice_from_1. cbn [py_uncons tl]. rewrite ?bind_ret, bind_ret_r.
   (* the loop: invariant new_tensor_shape = pre ++ [cur] *)
   match goal with |- context[py_for ?b _ _] => set (body := b) end.
   assert (Hloop : forall rest cur pre, py_for body rest (pre ++ [cur]) = Ret (pre ++ merge_loop thr cur rest)).
